@@ -5,6 +5,8 @@ set -e
 N=$1
 mkdir -p /tmp/wt
 git -C /repo worktree add --detach /tmp/wt/$N HEAD >/dev/null 2>&1
-cp -r /repo/node/target /tmp/wt/$N/node/target
+# hard links (copying 5 GB took > 10 min per worktree): cargo replaces the files it rebuilds; registry
+# dependencies stay fresh, workspace crates get new metadata hashes because their path differs
+cp -al /repo/node/target /tmp/wt/$N/node/target
 mkdir -p /tmp/wt/out-$N
 echo /tmp/wt/$N
